@@ -290,3 +290,53 @@ impl Lattice {
         Ok(())
     }
 }
+
+/// Read-only view of one lattice node for external verification harnesses
+#[cfg(feature = "verif")]
+#[derive(Debug, Clone)]
+pub struct VerifNode {
+    pub begin: usize,
+    pub end: usize,
+    pub left_id: u16,
+    pub right_id: u16,
+    pub cost: i16,
+    pub word_id: u32,
+    pub total_cost: i32,
+    pub prev_end: u16,
+    pub prev_index: u16,
+}
+
+#[cfg(feature = "verif")]
+impl Lattice {
+    /// Number of boundaries of the current lattice (length in codepoints + 1)
+    pub fn verif_size(&self) -> usize {
+        self.size
+    }
+
+    /// All nodes which end at the boundary `end`, in insertion order
+    pub fn verif_nodes(&self, end: usize) -> Vec<VerifNode> {
+        if end >= self.size {
+            return Vec::new();
+        }
+        self.ends_full[end]
+            .iter()
+            .enumerate()
+            .map(|(i, n)| VerifNode {
+                begin: n.begin(),
+                end: n.end(),
+                left_id: n.left_id(),
+                right_id: n.right_id(),
+                cost: n.cost(),
+                word_id: n.word_id().as_raw(),
+                total_cost: self.ends[end][i].total_cost,
+                prev_end: self.indices[end][i].end(),
+                prev_index: self.indices[end][i].index(),
+            })
+            .collect()
+    }
+
+    /// (end, index, total cost) of the node connected to EOS
+    pub fn verif_eos(&self) -> Option<(u16, u16, i32)> {
+        self.eos.map(|(idx, cost)| (idx.end(), idx.index(), cost))
+    }
+}
